@@ -11,6 +11,7 @@ def run(ctx):
     accept.rule_no_shortcut_with_certificate(ctx)
     provenance.rule_argument_provenance(ctx)
     provenance.rule_ownership(ctx)
+    provenance.rule_encoded_framework_is_searched(ctx)
     provenance.rule_range_encoding(ctx)
     dyn.rule_cache_barriers(ctx)
     accept.rule_membership_answers(ctx)
